@@ -130,8 +130,13 @@ def setup_worker():
 
 
 def preflight(tier):
+    from symx import selftest
     n = broadcast.selftest()
-    return [f"broadcast stub == numpy.broadcast_shapes on {n} shape pairs (rank<=3, sizes 0..3)"]
+    m = selftest.arithmetic_grid()
+    k = selftest.toy_paths()
+    return [f"broadcast stub == numpy.broadcast_shapes on {n} shape pairs (rank<=3, sizes 0..3)",
+            f"SymInt arithmetic == Python int on {m} (operator, operand pair) cases incl. negative floor division / modulo",
+            f"toy harness explored its {k} known paths"]
 
 
 def build_annotation(inst, V):
